@@ -43,10 +43,11 @@ type Op struct {
 	Client int    `json:"client,omitempty"` // connect, hb
 	Node   int    `json:"node,omitempty"`   // connect
 	Mode   string `json:"mode,omitempty"`   // connect: good | bad-secret | tunnel-type | no-handshake
-	Fault  string `json:"fault,omitempty"`  // connect(good) / hb: the shared tier of the handling node refuses the write of "conn_state", "client_conn" (once) or "both" (for the whole event); tiered backend only
-	Conn   int    `json:"conn,omitempty"`   // close / hbold: ordinal of the connect op whose connection is closed (by its owning node) / heartbeats late
-	HB     []int  `json:"hb,omitempty"`     // tick: clients that send a heartbeat on their newest connection after the pause; sweep: clients kept active
-	FF     bool   `json:"ff,omitempty"`     // tick: the Redis server's clock advances too (false: store-side expiry lags)
+	// close: "read1" / "read2" = the closing node's store fails the 1st / 2nd read of a connection record once (every backend)
+	Fault string `json:"fault,omitempty"` // connect(good) / hb: the shared tier of the handling node refuses the write of "conn_state", "client_conn" (once) or "both" (for the whole event); tiered backend only
+	Conn  int    `json:"conn,omitempty"`  // close / hbold: ordinal of the connect op whose connection is closed (by its owning node) / heartbeats late
+	HB    []int  `json:"hb,omitempty"`    // tick: clients that send a heartbeat on their newest connection after the pause; sweep: clients kept active
+	FF    bool   `json:"ff,omitempty"`    // tick: the Redis server's clock advances too (false: store-side expiry lags)
 }
 
 type Case struct {
@@ -86,12 +87,15 @@ func genCase(t *rapid.T) Case {
 	newest := [nClients]int{-1, -1}
 	n := rapid.IntRange(4, 16).Draw(t, "nops")
 	ticks := 0
-	kinds := []string{"connect", "connect", "connect", "connect", "hb", "hbold", "close", "close", "close", "tick", "tick", "tick", "streak", "sweep"}
-	streaks := 0
+	kinds := []string{"connect", "connect", "connect", "connect", "hb", "hbold", "close", "close", "close", "tick", "tick", "tick", "streak", "sweep", "lapse"}
+	streaks, lapses := 0, 0
 	for i := 0; i < n; i++ {
 		k := rapid.SampledFrom(kinds).Draw(t, "kind")
 		if k == "streak" && (!short || streaks >= 1) {
 			k = "close"
+		}
+		if k == "lapse" && (!short || lapses >= 1) {
+			k = "connect"
 		}
 		if k == "tick" && (!short || ticks >= 5) {
 			k = "connect"
@@ -146,7 +150,7 @@ func genCase(t *rapid.T) Case {
 				j = superseded[0]
 			}
 			conns[j].open = false
-			c.Ops = append(c.Ops, Op{Kind: "close", Conn: j})
+			c.Ops = append(c.Ops, Op{Kind: "close", Conn: j, Fault: rapid.SampledFrom([]string{"", "", "", "", "read1", "read2"}).Draw(t, "readFault")})
 		case "streak":
 			// a session that outlives the registration lifetime: 4-5 pauses of ttl/3, every connected client heartbeating
 			// on its newest connection; superseded connections stay silent, so their records lapse
@@ -156,6 +160,16 @@ func genCase(t *rapid.T) Case {
 			}
 			if len(superseded) > 0 && rapid.IntRange(0, 3).Draw(t, "lateHB") > 0 {
 				c.Ops = append(c.Ops, Op{Kind: "hbold", Conn: superseded[rapid.IntRange(0, len(superseded)-1).Draw(t, "oldConn")]})
+			}
+		case "lapse":
+			// the client is silent for longer than the registration lifetime while its connection lives (heartbeat gap,
+			// or the store lost the records), then its heartbeats resume: they must make it findable again
+			lapses++
+			for j := 0; j < 4; j++ {
+				c.Ops = append(c.Ops, Op{Kind: "tick", FF: rapid.IntRange(0, 3).Draw(t, "ff") > 0})
+			}
+			for _, x := range hbable {
+				c.Ops = append(c.Ops, Op{Kind: "hb", Client: x})
 			}
 		case "tick":
 			ticks++
@@ -245,6 +259,76 @@ func (a *faultArm) fails(key string) bool {
 
 func (f faultyShared) Close() error { return nil }
 
+// readArm makes one node's store fail one read of a tunnox:conn_state: key (a transient storage error).
+type readArm struct {
+	mu    sync.Mutex
+	armed bool
+	skip  int
+	hits  int
+}
+
+func (a *readArm) set(skip int) { a.mu.Lock(); a.armed, a.skip = true, skip; a.mu.Unlock() }
+
+func (a *readArm) take() int {
+	a.mu.Lock()
+	defer a.mu.Unlock()
+	n := a.hits
+	a.hits, a.armed = 0, false
+	return n
+}
+
+func (a *readArm) fails(key string) error {
+	a.mu.Lock()
+	defer a.mu.Unlock()
+	if !a.armed || !strings.HasPrefix(key, "tunnox:conn_state:") {
+		return nil
+	}
+	if a.skip > 0 {
+		a.skip--
+		return nil
+	}
+	a.armed = false
+	a.hits++
+	return fmt.Errorf("injected: transient storage read error")
+}
+
+// one facade per backend kind: the real storage with a Get that can fail once
+type faultMem struct {
+	*memory.Storage
+	arm *readArm
+}
+
+func (f faultMem) Get(key string) (any, error) {
+	if err := f.arm.fails(key); err != nil {
+		return nil, err
+	}
+	return f.Storage.Get(key)
+}
+
+type faultHyb struct {
+	*hybrid.Storage
+	arm *readArm
+}
+
+func (f faultHyb) Get(key string) (any, error) {
+	if err := f.arm.fails(key); err != nil {
+		return nil, err
+	}
+	return f.Storage.Get(key)
+}
+
+type faultRedis struct {
+	*redisstore.Storage
+	arm *readArm
+}
+
+func (f faultRedis) Get(key string) (any, error) {
+	if err := f.arm.fails(key); err != nil {
+		return nil, err
+	}
+	return f.Storage.Get(key)
+}
+
 func (f faultyShared) Set(key string, value any, ttl time.Duration) error {
 	if f.arm.fails(key) {
 		return fmt.Errorf("injected: shared cache unavailable")
@@ -316,6 +400,10 @@ type bclient struct {
 
 type backend struct {
 	arms    []*faultArm // per node; tiered backend only
+	rarms   []*readArm  // per node; every backend
+	ttl     time.Duration
+	lapsed  bool // a heartbeat arrived after the registration had provably lapsed
+	readHit bool
 	faulted bool
 	name    string
 	nodes   []*miniserver.Server
@@ -346,19 +434,25 @@ func buildBackends(c Case) []*backend {
 	for i := range arms {
 		arms[i] = &faultArm{}
 	}
+	rarms := map[string][]*readArm{}
+	for _, name := range backendNames {
+		for i := 0; i < maxNodes; i++ {
+			rarms[name] = append(rarms[name], &readArm{})
+		}
+	}
 	stores := map[string]func(i int) storage.Storage{
-		"memory":        func(int) storage.Storage { return mem },
-		"hybrid-memory": func(int) storage.Storage { return hm },
-		"redis":         func(i int) storage.Storage { return redisA.clients[i] },
+		"memory":        func(i int) storage.Storage { return faultMem{mem, rarms["memory"][i]} },
+		"hybrid-memory": func(i int) storage.Storage { return faultHyb{hm, rarms["hybrid-memory"][i]} },
+		"redis":         func(i int) storage.Storage { return faultRedis{redisA.clients[i], rarms["redis"][i]} },
 		"hybrid-redis": func(i int) storage.Storage {
 			cfg := hybrid.DefaultConfig()
 			cfg.EnablePersistent = true
-			return hybrid.NewWithSharedCache(ctx, memory.New(ctx), faultyShared{redisB.clients[i], arms[i]}, pers, cfg)
+			return faultHyb{hybrid.NewWithSharedCache(ctx, memory.New(ctx), faultyShared{redisB.clients[i], arms[i]}, pers, cfg), rarms["hybrid-redis"][i]}
 		},
 	}
 	var out []*backend
 	for _, name := range backendNames {
-		b := &backend{name: name}
+		b := &backend{name: name, rarms: rarms[name], ttl: c.ttl()}
 		switch name {
 		case "redis":
 			b.mr = redisA.mr
@@ -507,6 +601,9 @@ func (b *backend) heartbeatFault(client int, fault string) {
 	}
 	defer b.armFault(x.latest.node, fault, client)()
 	tb := time.Now()
+	if tb.After(x.refHi.Add(b.ttl + guard)) {
+		b.lapsed = true
+	}
 	err := x.latest.cl.Push(&packet.TransferPacket{PacketType: packet.Heartbeat})
 	ta := time.Now()
 	if err != nil {
@@ -516,12 +613,21 @@ func (b *backend) heartbeatFault(client int, fault string) {
 	x.refLo, x.refHi, x.hbSince = tb, ta, true
 }
 
-func (b *backend) closeConn(k int) {
+func (b *backend) closeConn(k int, fault string) {
 	if k >= len(b.conns) || !b.conns[k].open {
 		return
 	}
 	bc := b.conns[k]
+	switch fault {
+	case "read1":
+		b.rarms[bc.node].set(0)
+	case "read2":
+		b.rarms[bc.node].set(1)
+	}
 	bc.cl.CloseByPeer()
+	if b.rarms[bc.node].take() > 0 {
+		b.readHit = true
+	}
 	b.noteClosed(bc)
 }
 
@@ -761,7 +867,7 @@ func runCase(c Case) *result {
 		case "close":
 			for _, b := range bs {
 				if !b.dead {
-					b.closeConn(op.Conn)
+					b.closeConn(op.Conn, op.Fault)
 				}
 			}
 		case "sweep":
@@ -831,6 +937,12 @@ func check(t vkit.TB, c Case) {
 		if b.lateOldHB {
 			vkit.Class("feat:late-heartbeat-on-superseded-conn/" + b.name)
 		}
+		if b.lapsed {
+			vkit.Class("feat:heartbeat-after-lapsed-registration/" + b.name)
+		}
+		if b.readHit {
+			vkit.Class("feat:transient-read-error-during-close/" + b.name)
+		}
 		if b.faulted {
 			vkit.Class("feat:shared-tier-write-refused/" + b.name)
 		}
@@ -840,7 +952,7 @@ func check(t vkit.TB, c Case) {
 		if b.sweptLast {
 			vkit.Class("feat:stale-sweep-closed-last-conn/" + b.name)
 		}
-		nt := (b.reconnectOtherNode && b.oldClosedLate) || b.hbSpan || b.lateOldHB || b.sweptLast
+		nt := (b.reconnectOtherNode && b.oldClosedLate) || b.hbSpan || b.lateOldHB || b.sweptLast || b.lapsed || b.readHit
 		vkit.Case(class+"/"+b.name, nt, b.name+"#"+sig)
 		vkit.AddExtra("lookups_resolved_fresh", int64(b.resolved))
 		vkit.AddExtra("lookups_not_connected", int64(b.gone))
@@ -899,6 +1011,9 @@ func TestScenarios(t *testing.T) {
 		// the shared tier refuses node 1's registration writes; the next heartbeat repairs them; after the close nothing may remain
 		{Nodes: 2, TTLms: 30000, Ops: []Op{{Kind: "connect", Client: 0, Node: 0, Mode: "good", Fault: "both"}, {Kind: "hb", Client: 0}, {Kind: "close", Conn: 0},
 			{Kind: "connect", Client: 0, Node: 1, Mode: "good"}, {Kind: "hb", Client: 0, Fault: "client_conn"}, {Kind: "hb", Client: 0, Fault: "conn_state"}, {Kind: "close", Conn: 1}}},
+		// the registration lapses during a heartbeat gap; the resumed heartbeat must rebuild it; late cleanup of the old node with a transient read error
+		{Nodes: 2, TTLms: shortTTLms, Ops: []Op{{Kind: "connect", Client: 0, Node: 0, Mode: "good"}, {Kind: "tick", FF: true}, {Kind: "tick", FF: true}, {Kind: "tick", FF: true}, {Kind: "tick", FF: true},
+			{Kind: "hb", Client: 0}, {Kind: "connect", Client: 0, Node: 1, Mode: "good"}, {Kind: "close", Conn: 0, Fault: "read2"}, {Kind: "hb", Client: 0}, {Kind: "close", Conn: 1, Fault: "read1"}}},
 		// default lifetime (ttl argument 0)
 		{Nodes: 2, TTLms: 0, Ops: []Op{{Kind: "connect", Client: 1, Node: 1, Mode: "good"}, {Kind: "connect", Client: 1, Node: 1, Mode: "bad-secret"}, {Kind: "connect", Client: 1, Node: 0, Mode: "tunnel-type"}, {Kind: "close", Conn: 0}}},
 	} {
